@@ -312,7 +312,7 @@ Theorem mf_arc_post I high I' x :
     length x = num_variables I' /\ binary x /\
     Permutation (selected I' x) (concat routes) /\
     Ax I' x = rhs I' /\
-    igrid I' = igrid I /\ nodes (ig I') = nodes (ig I).
+    igrid I' = igrid I /\ nodes (ig I') = nodes (ig I) /\ Inv (ig I').
 Proof.
   unfold mf_arc. intros H HI Hg.
   set (N0 := length (nodes (ig I))) in *.
@@ -341,9 +341,9 @@ Proof.
   destruct (arc_vehicles_spec N0 I _ _ _ [] _ _ Ev eq_refl R0) as (closed1 & U1 & R1).
   destruct (arc_dummies_spec N0 high (igrid I) _ _ _ closed1 _ _ Ed U1 R1) as (Hnodes & routes & U2 & [W ND _ _ _ _ _ IN]).
   rewrite app_nil_r in ND, IN. cbn [ig I2]. rewrite Hnodes. fold N0.
-  assert (Hkeys : NoDup (map fst (arcs g2))).
+  assert (HI2 : Inv g2).
   { clear - Ed HI. revert Ed. generalize (ig I) used1 HI. clear HI.
-    induction unv1 as [|n us IH]; intros g used HI H; [simpl in H; inversion H; subst; apply (inv_keys _ HI)|].
+    induction unv1 as [|n us IH]; intros g used HI H; [simpl in H; inversion H; subst; exact HI|].
     cbn [arc_dummies] in H.
     destruct (nth_error (names g) 0) as [dn|]; [|discriminate].
     destruct (nth_error (names g) n) as [nn|]; [|discriminate].
@@ -360,6 +360,7 @@ Proof.
     assert (HI3 : Inv g3).
     { destruct (dict_mem (n, O) (arcs g1)); [inversion E2; subst; exact HI1|]. eapply HA; eauto. }
     eapply IH; eauto. }
+  assert (Hkeys : NoDup (map fst (arcs g2))) by (apply (inv_keys _ HI2)).
   assert (Hvnd : NoDup (vars I2)) by (apply vars_NoDup; [exact Hg|exact Hkeys]).
   destruct (mark_vars_spec I2 used2 Hvnd _ _ Em) as (Lx & Hin & Hx).
   rewrite repeat_length in Lx, Hx.
@@ -391,7 +392,7 @@ Proof.
   assert (Hcnt : forall j, (1 <= j < N0)%nat -> cnt (into_node j) used2 = 1%nat).
   { intros j Hj. rewrite U2, (IN j Hj). reflexivity. }
   split; [exact Hcnt|]. split; [exact Ex|]. split; [rewrite Lx; reflexivity|]. split; [exact Hbin|].
-  split; [exact Hperm|]. split; [|split; reflexivity].
+  split; [exact Hperm|]. split; [|split; [reflexivity|split; [reflexivity|exact HI2]]].
   apply local_iff; [exact Hg|rewrite Lx; reflexivity|exact Hbin|].
   apply (local_of_walks I2 x2 routes); [rewrite <- U2; exact Hperm|exact W|].
   intros j Hj. cbn [ig I2] in Hj. rewrite Hnodes in Hj. rewrite <- U2. apply Hcnt. exact Hj.
